@@ -36,6 +36,57 @@ def overlaps(case):
     return n
 
 
+def inproc(ctx, q):
+    """The output for an argument list must not depend on what ran before it in the same process."""
+    ov = json.load(open(ctx.overlay))
+    ov["Replace"][os.path.join(vlib.REPO, "cmd/benchstat/zz_verif_repeat_test.go")] = os.path.join(vlib.VERIF, "harness", "intest", "zz_verif_repeat_test.go")
+    ovp = os.path.join(ctx.work, "overlay-intest.json")
+    json.dump(ov, open(ovp, "w"))
+    tb = os.path.join(ctx.work, "benchstat.test")
+    import subprocess
+    pr = subprocess.run(["go", "test", "-c", "-vet=off", "-tags", "verif", "-overlay", ovp, "-o", tb, "./cmd/benchstat"], cwd=vlib.REPO, env=ctx.goenv(),
+                        stdout=subprocess.PIPE, stderr=subprocess.STDOUT, text=True)
+    if pr.returncode != 0:
+        raise vlib.Infra("building cmd/benchstat's test binary failed:\n" + pr.stdout[-2000:])
+    d = os.path.join(ctx.work, "intest")
+    os.makedirs(d, exist_ok=True)
+    g = ctx.harness(["tablespar", "genfiles", d, 3 if q else 12])
+    inputs = json.loads(g.stdout.strip().splitlines()[-1])
+    flagsets = [[], ["-alpha", "0.5"], ["-confidence", "0.8"], ["-row", ".name", "-table", "goos"], ["-format", "csv"],
+                ["-alpha", "1"], ["-filter", "*", "-ignore", "cpu"], ["-format", "csv", "-alpha", "0.001"]]
+    import random
+    rnd = random.Random(ctx.seed)
+    runs = []
+    for files in inputs:
+        seq = [fs + files for fs in flagsets]
+        order = seq[:1] + rnd.sample(seq, len(seq)) + seq[:1] + rnd.sample(seq, len(seq))
+        runs += order
+    plan = os.path.join(d, "plan.json")
+    outp = os.path.join(d, "out.json")
+    json.dump({"runs": runs, "out": outp}, open(plan, "w"))
+    env = dict(os.environ); env["VERIF_REPEAT_PLAN"] = plan
+    pr = subprocess.run([tb, "-test.run", "TestVerifRepeat", "-test.count", "1"], cwd=d, env=env, stdout=subprocess.PIPE, stderr=subprocess.STDOUT, text=True, timeout=900)
+    if pr.returncode != 0 or not os.path.exists(outp):
+        raise vlib.Infra("in-process repeat run failed:\n" + pr.stdout[-2000:])
+    res = json.load(open(outp))
+    first = {}
+    bad = []
+    for i, r in enumerate(res):
+        k = json.dumps(r["args"])
+        o = (r["stdout"], r["stderr"], r["err"])
+        if k not in first:
+            first[k] = (i, o)
+        elif first[k][1] != o:
+            bad.append({"signature": "output-depends-on-earlier-runs-in-process", "family": "benchstat-inprocess",
+                        "detail": "benchstat(%s): run %d differs from run %d of the same arguments (runs in between: %s)" % (
+                            " ".join(a if "/" not in a else os.path.basename(a) for a in r["args"]), i, first[k][0],
+                            [" ".join(x for x in q["args"] if "/" not in x) for q in res[first[k][0] + 1:i]][:6])})
+    ctx.cov["inprocess_runs"] = len(res)
+    ctx.cov["evaluations"] += len(res)
+    if bad:
+        ctx.report(bad[:5], "in-process repetition of benchstat()")
+
+
 def run(ctx):
     bins = ctx.build(binaries=("benchstat",))
     q = ctx.quick
@@ -143,6 +194,8 @@ def run(ctx):
         if not rep2["failures"]:
             raise vlib.Infra("binary repeat failure did not reproduce: %s" % rep["failures"][:2])
         ctx.report([{"signature": "binary-output-differs", "detail": f, "family": "tablespar-repeat"} for f in rep["failures"][:5]], "benchstat binary repeat runs")
+    # in-process repetition: benchstat() called several times in one process with different flags
+    inproc(ctx, q)
     ctx.cov["distinct_nontrivial"] = nontriv
     if flaky and not ctx.violations:
         raise vlib.Infra("; ".join(flaky))
